@@ -336,6 +336,14 @@ _RX = [(re.compile(r'^part\.(0|[1-9]\d*)\.parquet$'), 'NPart'),
        (re.compile(r'^t(0|[1-9]\d*)$'), 'NTmp')]
 
 
+def set_tmp_prefix(prefix='t'):
+    """the leaf name of an external per-partition temp directory is <prefix><n>; it is the
+    component that parses to NTmp n.  One prefix is in force at a time (per run), so the
+    parser stays injective; the prefix never starts like a part / sub-part name."""
+    assert not prefix.startswith('part')
+    _RX[2] = (re.compile('^' + re.escape(prefix) + r'(0|[1-9]\d*)$'), 'NTmp')
+
+
 def name_term(s):
     """the injective parser of Model/FS.v's header comment"""
     for rx, ctor in _RX:
